@@ -1,4 +1,5 @@
 import math
+import itertools
 from typing import Optional, cast
 
 from flamapy.core.models import VariabilityModel
@@ -52,4 +53,10 @@ def count_configurations_rec(feature: Feature) -> int:
         elif relation.is_or():
             children_counts = [count_configurations_rec(f) + 1 for f in relation.children]
             counts.append(math.prod(children_counts) - 1)
+        else:  # mutex and group cardinality [a..b]: choose k children, for each k in [a..b]
+            children_counts = [count_configurations_rec(f) for f in relation.children]
+            card_max = len(children_counts) if relation.card_max == -1 else relation.card_max
+            counts.append(sum(math.prod(selected)
+                              for k in range(relation.card_min, card_max + 1)
+                              for selected in itertools.combinations(children_counts, k)))
     return math.prod(counts)
